@@ -224,6 +224,8 @@ def r2_naive_search(ctx, MAX):
         for m in ms:
             if m[2][1] == I(0):
                 hy.append(m)
+            else:
+                hy.append(T.mk_implies(eq(m[2][1], I(0)), m))      # the empty prefix of the pattern matches anywhere
         hy.append(N(k))
         for a in elem_indices(P, fs):
             for b in elem_indices(S, fs):
@@ -231,6 +233,17 @@ def r2_naive_search(ctx, MAX):
                 same = eq(T.typed(('elem', P, a), 'u32'), T.typed(('elem', S, b), 'u32'))
                 hy.append(T.mk_implies(AND(M(i, a), same), M(i, T.mk_add(a, I(1)))))
                 hy.append(T.mk_implies(all_(N(i), lt(a, lp), NOT(same)), N(T.mk_add(i, I(1)))))
+        # a window compared as a whole:  string[i .. i + len(pattern)] == pattern  is, by definition, M(i, len(pattern)),
+        # and a window that differs moves the "no occurrence before" frontier by one
+        for f in fs:
+            for t in T.subterms(f):
+                if t[0] == 'call' and t[1] == 'slice_eq':
+                    for w, q in ((t[2][0], t[2][1]), (t[2][1], t[2][0])):
+                        if w[0] == 'slice' and w[1] == S and q == P:
+                            i = w[2]
+                            e = T.typed(t, 'bool')
+                            hy.append(T.mk_iff(e, M(i, lp)))
+                            hy.append(T.mk_implies(AND(N(i), NOT(e)), N(T.mk_add(i, I(1)))))
         allm = ghost_terms('M', fs + hy)
         alln = ghost_terms('N', fs + hy)
         hy += congruence(allm) + congruence(alln)
